@@ -71,6 +71,9 @@ def run(mutdir, ids):
         print("patch does not apply to /repo:", out)
         return {}
     results = {}
+    # evidence written while a mutant is applied must not replace the evidence of the unchanged tree
+    bak = tempfile.mkdtemp(prefix="evbak-", dir="/var/tmp")
+    shutil.copytree("/verif/evidence", os.path.join(bak, "evidence"))
     try:
         for i in ids:
             rc, out = sh("./bin/check %s --tier quick" % i, cwd="/verif", timeout=3600)
@@ -79,6 +82,9 @@ def run(mutdir, ids):
             results[i] = dict(rc=rc, violations=len(viol), why=why[:3], tail=out[-500:] if rc == 2 else "")
     finally:
         sh("git -C /repo checkout -- . && git -C /repo clean -fdq")
+        shutil.rmtree("/verif/evidence", ignore_errors=True)
+        shutil.copytree(os.path.join(bak, "evidence"), "/verif/evidence")
+        shutil.rmtree(bak, ignore_errors=True)
     return results
 
 if __name__ == "__main__":
